@@ -69,7 +69,7 @@ def payload_classes(n, rng):
 
 class Check(PropertyCheck):
     pid = "C03"
-    gen_files = ["GenAsh"]
+    gen_files = ["GenAsh", "GenAshFn"]
     model_imports = ["gen.GenAsh", "model.AshCodec"]
     run_expr = "run_codec_case"
     case_type = "(N * list N * list N)"
